@@ -52,6 +52,8 @@ class DPTArray:
             self.value = value
         else:
             raise TypeError()
+        if any(isinstance(octet, int) and not 0 <= octet <= 0xFF for octet in self.value):
+            raise ConversionError("Could not init DPTArray", value=str(value))
 
     def __eq__(self, other: object) -> bool:
         """Equal operator."""
